@@ -2,6 +2,8 @@
 SPECIFICATION Spec
 CONSTANTS OFFBYONE = FALSE
   NULLZERO = FALSE
+  KEYGEN0 = FALSE
+  DECRYPTMEMBERS = FALSE
   Objs = {1, 2, 3}
   MaxRevs = 2
   Styles = {"one", "each", "runs"}
@@ -9,5 +11,5 @@ CONSTANTS OFFBYONE = FALSE
   MaxPieces = 4
   STRICT_LENGTH = TRUE
 CONSTRAINT PiecesBound
-INVARIANTS LookupOK TrailerOK FileOK ExtentOK CorrectOK DivergenceIs
+INVARIANTS LookupOK KeyOK TrailerOK FileOK ExtentOK CorrectOK DivergenceIs
 CHECK_DEADLOCK FALSE
